@@ -279,7 +279,7 @@ def run(ctx):
         ctx.nontrivial_hashes.add('sweep:' + repr(k))
     ctx.notes['sweep_cases'] = len(sweep)
     # generated programs
-    failures = hyp.fan_out(ctx, 'pylib.props.c05', 'gen_case', 700 if quick else 20000, extra={'tier': ctx.tier})
+    failures = hyp.fan_out(ctx, 'pylib.props.c05', 'gen_case', 1200 if quick else 25000, extra={'tier': ctx.tier})
     seen = set()
     for f in failures:
         key = f['why'].split(':')[0][:40]
